@@ -48,10 +48,19 @@ fn vnow() -> u64 {
 /// socket, inside the real loop, through the loop's own injection point for egress binding.
 struct TapBinder {
     taps: Arc<std::sync::Mutex<std::collections::HashMap<std::net::IpAddr, socket2::Socket>>>,
+    /// addresses whose socket cannot be opened at the moment (the interface is gone): the bind is refused
+    refuse: Arc<std::sync::Mutex<std::collections::HashSet<std::net::IpAddr>>>,
+    /// every attempt to open a socket for an uplink: (address, virtual time, succeeded)
+    attempts: Arc<std::sync::Mutex<Vec<(std::net::IpAddr, u64, bool)>>>,
 }
 
 impl UplinkBinder for TapBinder {
     fn bind(&self, sock: &socket2::Socket, ip: std::net::IpAddr) -> anyhow::Result<()> {
+        if self.refuse.lock().unwrap().contains(&ip) {
+            self.attempts.lock().unwrap().push((ip, vnow(), false));
+            anyhow::bail!("harness: {ip} cannot be bound at the moment");
+        }
+        self.attempts.lock().unwrap().push((ip, vnow(), true));
         SourceIpBinder.bind(sock, ip)?;
         if let Ok(dup) = sock.try_clone() {
             self.taps.lock().unwrap().insert(ip, dup);
@@ -91,6 +100,8 @@ pub struct LoopSim {
     srt_port: u16,
     config: srtla_send::DynamicConfig,
     taps: Arc<std::sync::Mutex<std::collections::HashMap<std::net::IpAddr, socket2::Socket>>>,
+    refuse: Arc<std::sync::Mutex<std::collections::HashSet<std::net::IpAddr>>>,
+    attempts: Arc<std::sync::Mutex<Vec<(std::net::IpAddr, u64, bool)>>>,
     /// subscribers that never read (their queues fill up at once): the loop's 1 Hz stats publish must not wait
     stalled_subs: Vec<tokio::sync::mpsc::Receiver<String>>,
     side: Option<tokio::task::JoinHandle<()>>,
@@ -102,6 +113,11 @@ pub struct LoopSim {
     recent_rx: VecDeque<(u32, usize, u32)>,
     rx_copies: std::collections::HashMap<u32, u32>,
     nak_ctr: u64,
+    ack_ctr: u64,
+    bind_phase: u8,
+    run_no: u64,
+    /// blackout schedules: 0 = before, 1..n-1 = links being taken down, 100 = dark, 101.. = being repaired, 200 = over
+    blackout_phase: usize,
     weak_run: [u32; 8],
     guard_phase: u8,
     /// our own SIGHUP listener, registered before the loop's: a SIGHUP can never take the default action
@@ -182,6 +198,8 @@ impl LoopSim {
         Self {
             rt, task: None, receiver, rport, client, srt_port: 0, config: srtla_send::DynamicConfig::new(),
             taps: Default::default(),
+            refuse: Default::default(),
+            attempts: Default::default(),
             stalled_subs: Vec::new(),
             side: None,
             readers: Vec::new(),
@@ -189,6 +207,10 @@ impl LoopSim {
             recent_rx: VecDeque::new(),
             rx_copies: Default::default(),
             nak_ctr: 0,
+            ack_ctr: 0,
+            bind_phase: 0,
+            run_no: 0,
+            blackout_phase: 0,
             weak_run: [0; 8],
             guard_phase: 0,
             own_hup,
@@ -319,7 +341,7 @@ impl LoopSim {
                             if self.weak_run[l] >= 15 { self.bump("stats_probations_seen"); }
                             self.weak_run[l] = 0;
                         }
-                        if x["reason"] == json!("high_rtt") { self.bump("stats_delay_verdicts"); }
+                        if x["reason"] == json!("high_rtt") || x["reason"] == json!("queue_building") { self.bump("stats_delay_verdicts"); }
                         if x["deg"] == json!(true) { self.bump("stats_loss_degraded_samples"); }
                         if x["weak"] == json!(true) { self.bump("stats_weak_verdicts"); }
                         if x["gated"] == json!(true) { self.bump("stats_gated_samples"); }
@@ -422,7 +444,22 @@ impl LoopSim {
                     self.ack_buf[link].push(s);
                     if self.ack_buf[link].len() >= 10 {
                         let l: Vec<u32> = self.ack_buf[link].drain(..).collect();
-                        replies.push(create_ack_packet(&l).to_vec());
+                        self.ack_ctr += 1;
+                        // (acct schedules: every fourth list comes back on another uplink than the one that carried the
+                        // packets -- srtla_rec answers on the link of the LAST packet of a list, which is another one
+                        // for packets that arrived earlier on a different link)
+                        let other = if self.profile == "acct" && self.ack_ctr % 4 == 0 {
+                            (0..self.n).map(|k| (link + 1 + k) % self.n).find(|o| *o != link && self.registered[*o].is_some() && self.path[*o] == Path::Up)
+                        } else {
+                            None
+                        };
+                        match other.and_then(|o| self.registered[o].map(|to| (o, to))) {
+                            Some((o, to)) => {
+                                self.pending.push_back(Reply { at: now + self.rtt[o], link: o, to, bytes: create_ack_packet(&l).to_vec() });
+                                self.bump("ack_lists_via_other_link");
+                            }
+                            None => replies.push(create_ack_packet(&l).to_vec()),
+                        }
                     }
                     if self.profile == "nak" {
                         // (copies are counted over the whole run: a retransmission may come much later)
@@ -543,8 +580,16 @@ impl LoopSim {
         let now = self.now();
         let mut rx = Vec::new();
         let mut keep = VecDeque::new();
+        let mut last_link: Option<usize> = None;
         while let Some(r) = self.pending.pop_front() {
             if r.at <= now {
+                // datagrams for one socket are read in order; those for different sockets go through different reader
+                // tasks, so the loop is left to digest what it has before the next uplink's answers are sent: the order
+                // in which the sender processes the answers of one step is the order they are logged in
+                if last_link.is_some_and(|l| l != r.link) {
+                    self.settle();
+                }
+                last_link = Some(r.link);
                 if self.path[r.link] == Path::Up && self.cur_addr[r.link] == Some(r.to)
                     && self.receiver.send_to(&r.bytes, r.to).is_ok()
                 {
@@ -618,6 +663,14 @@ impl LoopSim {
             self.bump("client_deliveries");
         }
         line["pub"] = json!(self.drain_readers());
+        let att: Vec<Value> = self.attempts.lock().unwrap().drain(..).map(|(ip, t, ok)| {
+            let l = match ip { std::net::IpAddr::V4(v4) => v4.octets()[3] as i64 - 9, _ => 0 };
+            json!({"l": l, "t": (t.max(T0) - T0) as i64, "ok": ok})
+        }).collect();
+        for a in &att {
+            if a["ok"] == json!(false) { self.bump("socket_open_attempts_refused"); }
+        }
+        line["binds"] = json!(att);
         line["t"] = json!((now - T0) as i64);
         line["wire"] = json!(wire);
         line["rx"] = json!(rx);
@@ -658,6 +711,10 @@ impl Engine for LoopSim {
         self.steps_total = cfg.get("steps").and_then(Value::as_u64).unwrap_or(3000);
         self.timeout_ms = cfg.get("timeout").and_then(Value::as_u64).unwrap_or(5000);
         self.path = vec![Path::Up; self.n];
+        if self.profile == "blackout" && self.n >= 2 {
+            // the last uplink never comes up
+            self.path[self.n - 1] = Path::Hole;
+        }
         self.rtt = (0..self.n).map(|i| cfg["rtt"].get(i).and_then(Value::as_u64).unwrap_or(20)).collect();
         self.group = None;
         self.registered = vec![None; self.n];
@@ -684,6 +741,10 @@ impl Engine for LoopSim {
         self.recent_rx.clear();
         self.rx_copies.clear();
         self.nak_ctr = 0;
+        self.ack_ctr = 0;
+        self.bind_phase = 0;
+        self.run_no += 1;
+        self.blackout_phase = 0;
         self.weak_run = [0; 8];
         self.guard_phase = 0;
         self.config = srtla_send::DynamicConfig::new();
@@ -711,7 +772,10 @@ impl Engine for LoopSim {
                     self.srt_port = StdUdp::bind("[::]:0").and_then(|s| s.local_addr()).map(|a| a.port()).expect("free port");
                     let (path, rport, port, config) = (self.ips_path(), self.rport, self.srt_port, self.config.clone());
                     self.taps.lock().unwrap().clear();
-                    let binder: Arc<dyn UplinkBinder> = Arc::new(TapBinder { taps: self.taps.clone() });
+                    self.refuse.lock().unwrap().clear();
+                    self.attempts.lock().unwrap().clear();
+                    let binder: Arc<dyn UplinkBinder> =
+                        Arc::new(TapBinder { taps: self.taps.clone(), refuse: self.refuse.clone(), attempts: self.attempts.clone() });
                     let hub = srtla_send::subscriptions::SubscriptionHub::new();
                     for r in self.readers.drain(..) {
                         r.task.abort();
@@ -903,6 +967,15 @@ impl Engine for LoopSim {
                 line["d"] = json!(0);
                 self.bump("send_failures_injected");
             }
+            "BindFail" => {
+                // from now on (or no longer) a socket for link l's address cannot be opened
+                let l = geti(ev, "l") as usize - 1;
+                let ip = std::net::IpAddr::V4(std::net::Ipv4Addr::new(127, 0, 0, 10 + l as u8));
+                let on = ev.get("on").and_then(Value::as_bool).unwrap_or(true);
+                if on { self.refuse.lock().unwrap().insert(ip); } else { self.refuse.lock().unwrap().remove(&ip); }
+                line["d"] = json!(0);
+                self.bump("bind_refusals_switched");
+            }
             "Amnesia" => {
                 // the receiver restarts: it knows no group and no link any more
                 self.group = None;
@@ -934,7 +1007,7 @@ impl Engine for LoopSim {
     fn gen_cfg(&mut self, rng: &mut StdRng) -> Value {
         let profile = std::env::var("VH_PROFILE").unwrap_or_else(|_| "steady".into());
         // (an outage needs a link to lose and one to survive)
-        let lo = if profile == "outage" { 2 } else { 1 };
+        let lo = if profile == "outage" || profile == "blackout" { 2 } else { 1 };
         let n = std::env::var("VH_LINKS").ok().and_then(|s| s.parse().ok()).unwrap_or_else(|| rng.random_range(lo..=4));
         let steps = std::env::var("VH_STEPS").ok().and_then(|s| s.parse().ok()).unwrap_or(3000u64);
         let rtt: Vec<u64> = (0..n).map(|_| [3u64, 8, 20, 45, 90][rng.random_range(0..5)]).collect();
@@ -954,7 +1027,17 @@ impl Engine for LoopSim {
             if self.victim_down_at.is_none() && up && self.steps_done * 10 >= self.steps_total {
                 self.victim_down_at = Some(now);
                 let p = if rng.random_range(0..3) == 0 { "replies_lost" } else { "hole" };
+                // every other outage also takes the interface away: the victim's socket cannot be re-opened either
+                self.bind_phase = if self.run_no % 2 == 0 { 1 } else { 0 };
                 return Some(json!({"ev": "SetPath", "l": victim + 1, "p": p}));
+            }
+            if self.bind_phase == 1 {
+                self.bind_phase = 2;
+                return Some(json!({"ev": "BindFail", "l": victim + 1, "on": true}));
+            }
+            if self.bind_phase == 2 && self.victim_down_at.is_some_and(|t0| now > t0 + self.timeout_ms + 12_500) {
+                self.bind_phase = 3;
+                return Some(json!({"ev": "BindFail", "l": victim + 1, "on": false}));
             }
             if let Some(t0) = self.victim_down_at {
                 // dense runs: once the victim's backlog has gone stale (the stall guard has it latched) the guard is
@@ -978,6 +1061,37 @@ impl Engine for LoopSim {
                     self.victim_repaired = true;
                     return Some(json!({"ev": "SetPath", "l": victim + 1, "p": "up"}));
                 }
+            }
+        }
+        if self.profile == "blackout" && self.n >= 2 {
+            // an established session over all uplinks but the last (which never registered); then every path goes
+            // dark for longer than the timeout while the client keeps sending; then all of them are repaired
+            let live = self.n - 1;
+            let up = self.registered.iter().take(live).all(|r| r.is_some());
+            if self.blackout_phase == 0 && up && self.steps_done * 10 >= self.steps_total * 2 {
+                self.blackout_phase = 1;
+            }
+            if (1..=live).contains(&self.blackout_phase) {
+                let l = self.blackout_phase;
+                self.blackout_phase = if l == live { 100 } else { l + 1 };
+                if l == live {
+                    self.victim_down_at = Some(now);
+                    self.bump("total_blackouts");
+                }
+                return Some(json!({"ev": "SetPath", "l": l, "p": "hole"}));
+            }
+            if self.blackout_phase == 100 && self.victim_down_at.is_some_and(|t0| now > t0 + self.timeout_ms + 9_000) {
+                self.blackout_phase = 101;
+            }
+            if (101..=100 + self.n).contains(&self.blackout_phase) {
+                let l = self.blackout_phase - 100;
+                self.blackout_phase = if l == self.n { 200 } else { self.blackout_phase + 1 };
+                return Some(json!({"ev": "SetPath", "l": l, "p": "up"}));
+            }
+            if self.blackout_phase == 100 && rng.random_range(0..2) == 0 {
+                // mostly time while it is dark
+                let d = rng.random_range(20..400);
+                return Some(json!({"ev": "Advance", "d": d}));
             }
         }
         if self.profile == "reload" {
